@@ -28,7 +28,7 @@ use rustc_middle::mir::{
     self, AggregateKind, BorrowKind, Const, ConstValue, Operand, Place, ProjectionElem, Rvalue,
     StatementKind, TerminatorKind, UnwindAction,
 };
-use rustc_middle::ty::print::with_no_trimmed_paths;
+use rustc_middle::ty::print::{with_no_trimmed_paths, with_no_visible_paths};
 use rustc_middle::ty::{self, EarlyBinder, GenericArgsRef, Ty, TyCtxt, TypeVisitableExt};
 use rustc_span::Span;
 use std::collections::{BTreeMap, BTreeSet, VecDeque};
@@ -40,11 +40,11 @@ fn s(x: impl Into<String>) -> J {
 }
 
 fn path_of(tcx: TyCtxt<'_>, did: DefId) -> String {
-    with_no_trimmed_paths!(tcx.def_path_str(did))
+    with_no_visible_paths!(with_no_trimmed_paths!(tcx.def_path_str(did)))
 }
 
 fn ty_str(ty: Ty<'_>) -> String {
-    with_no_trimmed_paths!(ty.to_string())
+    with_no_visible_paths!(with_no_trimmed_paths!(ty.to_string()))
 }
 
 fn span_str(tcx: TyCtxt<'_>, sp: Span) -> String {
@@ -116,7 +116,7 @@ impl<'tcx> Dumper<'tcx> {
     }
 
     fn inst_key(&self, did: DefId, args: GenericArgsRef<'tcx>) -> String {
-        with_no_trimmed_paths!(self.tcx.def_path_str_with_args(did, args))
+        with_no_visible_paths!(with_no_trimmed_paths!(self.tcx.def_path_str_with_args(did, args)))
     }
 
     fn place(&self, body: &mir::Body<'tcx>, p: &Place<'tcx>) -> J {
